@@ -47,6 +47,8 @@ func main() {
 		os.Exit(cmdCheck(os.Args[2:]))
 	case "replay":
 		os.Exit(cmdReplay(os.Args[2:]))
+	case "ssajson":
+		os.Exit(cmdSSAJSON(os.Args[2:]))
 	default:
 		usage()
 	}
